@@ -2443,6 +2443,16 @@ def merge_fn(toks, opts, sections, fired):
             texts = [toks[i].text for i in ci]
             hits = [k for k in range(len(texts) - len(pat) + 1) if texts[k:k + len(pat)] == pat]
             if nth is not None:
+                if len(hits) < nth and len(pat) > 3:
+                    # anchor fallback for the k-th occurrence (see below): longest proper prefix (>= 3 tokens) that occurs at
+                    # least k times; one of the occurrences was edited, the k-th statement of that shape is still the k-th
+                    for plen in range(len(pat) - 1, 2, -1):
+                        sub = pat[:plen]
+                        h2 = [k for k in range(len(texts) - plen + 1) if texts[k:k + plen] == sub]
+                        if len(h2) >= nth:
+                            hits = h2
+                            fired["anchor_fallback"] = fired.get("anchor_fallback", 0) + 1
+                            break
                 if len(hits) < nth:
                     raise ExtractError(f"lost anchor: {key!r} matches {len(hits)} times")
                 hits = [hits[nth - 1]]
